@@ -36,6 +36,7 @@ var oddTrackedKinds = []string{
 type oddFile struct {
 	Path   string
 	Kind   string
+	Mode   string // "100644" | "100755": the mode coordinate of every planted pointer-problem kind
 	Commit string // label of the extra commit that introduced it ("odd1", "odd2", "staged")
 }
 
@@ -105,7 +106,13 @@ func mustOK(res sbx.Result) {
 }
 
 // addExtras extends a histgen repository. flavor 0 adds nothing odd.
-func addExtras(env *sbx.Env, g *histgen.Repo, r *rand.Rand, idx int) *extras {
+//
+// rm draws the file modes (a PRNG of its own: the other choices are the same function of the seed
+// as before the mode coordinate existed): every blob planted under a tracked pattern, and the extra
+// / staged LFS files, are executable (100755) with probability 1/2. Symbolic links and gitlinks are
+// not planted as "pointer problems": they are not files the clean filter applies to, git-lfs does
+// not examine them, and the reference model does not judge them (isRegular).
+func addExtras(env *sbx.Env, g *histgen.Repo, r, rm *rand.Rand, idx int) *extras {
 	ex := &extras{}
 	dir := g.Dir
 	var targets []objRef
@@ -126,10 +133,17 @@ func addExtras(env *sbx.Env, g *histgen.Repo, r *rand.Rand, idx int) *extras {
 		if err := os.WriteFile(p, oddContent(r, kind, targets[r.Intn(len(targets))]), 0o644); err != nil {
 			panic(err)
 		}
+		mode := "100644"
+		if rm.Intn(2) == 0 {
+			mode = "100755"
+			if err := os.Chmod(p, 0o755); err != nil {
+				panic(err)
+			}
+		}
 		// filters disabled: the clean filter must not convert the file
 		mustOK(env.PlainGit(dir, "add", "-f", "--", rel))
-		ex.Odd = append(ex.Odd, oddFile{Path: rel, Kind: kind, Commit: label})
-		ex.Log = append(ex.Log, fmt.Sprintf("%s: add (filters off) %s [%s]", label, rel, kind))
+		ex.Odd = append(ex.Odd, oddFile{Path: rel, Kind: kind, Mode: mode, Commit: label})
+		ex.Log = append(ex.Log, fmt.Sprintf("%s: add (filters off) %s [%s, mode %s]", label, rel, kind, mode))
 	}
 	trackedExt := func() string {
 		if r.Intn(4) == 0 {
@@ -146,6 +160,10 @@ func addExtras(env *sbx.Env, g *histgen.Repo, r *rand.Rand, idx int) *extras {
 		p := filepath.Join(dir, rel)
 		os.MkdirAll(filepath.Dir(p), 0o755)
 		os.WriteFile(p, b, 0o644)
+		if rm.Intn(2) == 0 {
+			os.Chmod(p, 0o755) // an object referenced only by an executable pointer
+			ex.Log = append(ex.Log, "LFS file "+rel+" is executable")
+		}
 		mustOK(env.Git(dir, "add", "--", rel))
 	}
 
@@ -188,6 +206,27 @@ func addExtras(env *sbx.Env, g *histgen.Repo, r *rand.Rand, idx int) *extras {
 		n2 := 1 + r.Intn(3)
 		for _, k := range perm[n1 : n1+n2] {
 			plainAdd(oddTrackedKinds[k], trackedExt(), "odd2")
+		}
+		if rm.Intn(3) == 0 {
+			// A symbolic link under a tracked pattern whose target text is (non-)canonical pointer text.
+			// Not a tracked FILE in the property's sense: the clean filter never applies to a link,
+			// git-lfs does not examine mode 120000 entries in its pointer check, and the reference model
+			// does not judge the path. The blob is still seen by the object scan (rev-list --objects), so
+			// the object it names MAY be named when damaged (oracle.go, scan).
+			t := targets[rm.Intn(len(targets))]
+			text := ptrspec.Canonical(ptrspec.Pointer{Oid: t.Oid, Size: t.Size})
+			if rm.Intn(2) == 0 {
+				text += "\n"
+			}
+			rel := fmt.Sprintf("%slnk%d_pointer-text.bin", oddDirs[rm.Intn(len(oddDirs))], idx)
+			p := filepath.Join(dir, rel)
+			os.MkdirAll(filepath.Dir(p), 0o755)
+			if err := os.Symlink(text, p); err != nil {
+				panic(err)
+			}
+			mustOK(env.PlainGit(dir, "add", "-f", "--", rel))
+			ex.Odd = append(ex.Odd, oddFile{Path: rel, Kind: "symlink-pointer-text", Mode: "120000", Commit: "odd2"})
+			ex.Log = append(ex.Log, "odd2: add symbolic link "+rel+" whose target is pointer text for "+t.Oid[:12])
 		}
 		commit("odd2")
 		env.Git(dir, "tag", "-a", "-m", "annotated", "odd2")
